@@ -239,7 +239,7 @@ def run_one(tape: Any, cfg: Dict[str, Any], forbid: FrozenSet[str] = frozenset()
         for ip in ('10.0.0.66', '10.0.0.67'):
             o = Origin(w, ip, 80, adv_script, name='adv-up', mode=rmode, latency=[0.0, 0.0, 0.3][tape.draw(3, 'lat')])
             o.remote.faultable = faults
-            o2 = Origin(w, ip, 443, adv_script, name='adv-up443', mode=rmode, cap_in=1024 if stalled_upload else 65536)
+            o2 = Origin(w, ip, 443, adv_script, name='adv-up443', mode=rmode, cap_in=1024 if stalled_upload else 65536, reading=not stalled_upload)
             o2.remote.faultable = faults
         host = b'adv.example' if up_mode != 'noresolve' else b'nosuch.example'
         # the adversary's client bytes
